@@ -55,6 +55,10 @@ theorem kwPut_ok {kw kw1 : Kwargs} {k : String} {v : Val} (h : kwPut kw k v = .o
   · cases h
   · cases h; rfl
 
+theorem kwPut_exc {kw kw1 : Kwargs} {k : String} {v : Val} (hv : v.isExc = true) : kwPut kw k v ≠ .ok kw1 := by
+  cases v <;> simp [Val.isExc] at hv
+  simp [kwPut]
+
 theorem kwStep_values (P : Program) (s : St) (acc : KwRes) (e : Edge)
     (hacc : ∀ kw0, acc = .ok kw0 → ∀ a b, (a, b) ∈ kw0 → ∃ src, b = s.getHid src) :
     ∀ kw1, kwStep P s acc e = .ok kw1 → ∀ a b, (a, b) ∈ kw1 → ∃ src, b = s.getHid src := by
@@ -69,12 +73,14 @@ theorem kwStep_values (P : Program) (s : St) (acc : KwRes) (e : Edge)
       simp only [hek] at h1
       split at h1
       · split at h1
-        · next l c hsw =>
-          have := kwPut_ok h1; subst this
-          rcases mem_insertKw hab with h2 | h2
-          · exact ⟨c, by cases h2; rfl⟩
-          · exact hacc _ rfl a b h2
-        · simp at h1
+        · next hie => exact absurd h1 (kwPut_exc hie)
+        · split at h1
+          · next l c hsw =>
+            have := kwPut_ok h1; subst this
+            rcases mem_insertKw hab with h2 | h2
+            · exact ⟨c, by cases h2; rfl⟩
+            · exact hacc _ rfl a b h2
+          · simp at h1
       · have := kwPut_ok h1; subst this
         rcases mem_insertKw hab with h2 | h2
         · exact ⟨e.u, by cases h2; rfl⟩
@@ -110,7 +116,7 @@ theorem C04_consumers_read_stored_result (P : Program) (s : St) (n : Node) (kw :
 
 /-! Non-vacuity: the initial state is reachable and satisfies the invariant with equality possible after
 one execution (see the lock-step corpus for reachable states with `invCount = hideCount + 1`). -/
-example : Reach { g := ⟨[0], [], fun _ => {}, 0, 0⟩, cfg := fun _ => {}, body := fun _ _ _ _ => .ret .none,
+example : Reach { g := ⟨[0], [], fun _ => {}, 0, 0, []⟩, cfg := fun _ => {}, body := fun _ _ _ _ => .ret .none,
                   dflt := fun _ _ => .none, inputKw := [] } init :=
   .init
 
